@@ -26,6 +26,7 @@ import (
 	"github.com/nuts-foundation/go-did/did"
 	"github.com/nuts-foundation/go-stoabs"
 	"github.com/nuts-foundation/nuts-node/crypto/hash"
+	"sort"
 )
 
 func writeEventList(tx stoabs.WriteTx, newEventList eventList, id did.DID) error {
@@ -263,7 +264,14 @@ outer:
 	}
 
 	txRefReader := tx.GetShelfReader(transactionIndexShelf)
+	// merge in a fixed order: the result (e.g. which of two services with the same ID survives) and the order of
+	// SourceTransactions must not depend on map iteration
+	unconsumedRefs := make([]string, 0, len(unconsumed))
 	for k := range unconsumed {
+		unconsumedRefs = append(unconsumedRefs, k)
+	}
+	sort.Strings(unconsumedRefs)
+	for _, k := range unconsumedRefs {
 		st, _ := hash.ParseHex(k)
 		newMeta.SourceTransactions = append(newMeta.SourceTransactions, st)
 		// get old doc by txRef ...
